@@ -23,6 +23,8 @@ enum
   EV_FILL_BEGIN,
   EV_FILL_END,
   EV_WORKER_ENTER,
+  EV_FOREIGN_WRITE = 211, // harness event: during the read of a fill, bytes of the buffer array OUTSIDE the data area of the buffer being
+                          // filled changed (obj = first such address, a = how many, b = offset of the filled buffer in the array)
   EV_RUNCRY = 300
 };
 
@@ -34,4 +36,4 @@ Case gen_sched_case(SchedProp which);
 void fixed_sched(Ctx &ctx, SchedProp which, const char *pid);
 
 // ownership monitor over a totally ordered event stream; returns "" if every rule held
-std::string monitor_events(const std::vector<wapi::Event> &ev, int T, const std::vector<uint32_t> &blocks_per_fill, bool recorder, std::map<std::string, uint64_t> *counts, bool partial = false);
+std::string monitor_events(const std::vector<wapi::Event> &ev, int T, const std::vector<uint32_t> &blocks_per_fill, bool recorder, std::map<std::string, uint64_t> *counts, bool partial = false, bool sizes_unknown = false);
